@@ -27,6 +27,8 @@ Proved for ALL libraries, packages, caches, fetched streams:
                                   the tamperings of the property text, as corollaries;
 * `ops_authentic`                 for every sequence of lock/build operations starting from an empty cache root, every package
                                   of an operation whose verdict is `ok` was expanded to authentic bytes.
+* `spec_ok_sound`                 the oracle evaluated by the driver (`Spec.pkgVerdict`) answers `ok` only when the candidate bytes
+                                  satisfy the three relations in their strict form (a data hash IS recorded and matches).
 Residual (finding F05c): the repair tolerates an EMPTY datahash (`DataMatches` has that disjunct); then the data section
 is covered by per-file records only — `empty_datahash_unauthenticated`.
 -/
@@ -608,6 +610,60 @@ theorem ops_inv_any (verify : Bool) (L : Lib) (ops : List Op) (s : Store) (hinv 
   | cons o os ih =>
     simp only [runOps]
     exact ih _ (runPkgs_spec verify L o.kind o.useCache o.pkgs s hinv).1
+
+/-! ### the oracle the driver evaluates (`Spec.pkgVerdict`) says `ok` only when the three relations hold -/
+
+theorem dataClass_strict (L : Lib) (control data : Bytes)
+    (h2 : Spec.dataClass L control data ≠ 2) (h1 : Spec.dataClass L control data ≠ 1) :
+    DataMatchesStrict L control data := by
+  unfold Spec.dataClass at h1 h2
+  cases hinfo : L.pkginfo control with
+  | none => simp [hinfo] at h2
+  | some info =>
+    cases hdh : datahash info with
+    | none => simp [hinfo, hdh] at h2
+    | some dh =>
+      simp only [hinfo, hdh] at h1 h2
+      by_cases hd : decodeHex dh = some (L.sha256 data)
+      · exact ⟨info, dh, hinfo, hdh, hd⟩
+      · by_cases he : dh = []
+        · rw [if_neg hd, if_pos he] at h1; exact absurd rfl h1
+        · rw [if_neg hd, if_neg he] at h2; exact absurd rfl h2
+
+theorem spec_ok_sound (L : Lib) (kind : OpKind) (p : PkgReq) (cache : Option Cache)
+    (h : Spec.pkgVerdict L kind p cache = "ok") :
+    ∃ control data es, Spec.candidate L p cache = some (control, data) ∧
+      ControlMatches L p.expected.digest control ∧ DataMatchesStrict L control data ∧
+      L.untarData data = some es ∧ checkSums L es = true ∧ (kind = .build → installFiles es = true) := by
+  unfold Spec.pkgVerdict at h
+  split at h
+  · exact absurd h (by decide)
+  · next control data hc =>
+    split at h
+    · exact absurd h (by decide)
+    · next hctl =>
+      split at h
+      · exact absurd h (by decide)
+      · next hd2 =>
+        split at h
+        · exact absurd h (by decide)
+        · next hfiles =>
+          split at h
+          · exact absurd h (by decide)
+          · next hd1 =>
+            have hctl' : ControlMatches L p.expected.digest control := by
+              simpa [Spec.controlOk, ControlMatches] using hctl
+            have hf : Spec.filesOk L data (decide (kind = .build)) = true := by simpa using hfiles
+            unfold Spec.filesOk at hf
+            split at hf
+            · cases hf
+            · next es hes =>
+              simp only [Bool.and_eq_true, Bool.or_eq_true, Bool.not_eq_true', decide_eq_false_iff_not] at hf
+              refine ⟨control, data, es, hc, hctl', dataClass_strict L control data hd2 hd1, hes, hf.1, ?_⟩
+              intro hk
+              rcases hf.2 with hn | hi
+              · exact absurd hk hn
+              · exact hi
 
 /-! ### the pinned algorithm violates the property (F05a, F05b); the residual (F05c) -/
 
